@@ -177,6 +177,11 @@ S_Strat(u)        == StratOf(SetToSeq(AnnsDir_(0)))
 \* therefore operators (dummy argument), the configuration selects one through the constant Which, and the model
 \* starts from MCInit (evaluated once) instead of Annotate!Init over a constant set
 CONSTANT Which
+\* the relational cases in the declaration shapes that the scanner emits twice (Annotate!EmittedIndex): every method
+\* of the grid-shaped spaces as moved-to pair and as class-structure slot, both emitted copies
+Shaped(S)   == {[shape |-> sh, copy |-> k] @@ c : c \in {x \in S : x.kind = "method"}, sh \in {"movedto", "vfunc"}, k \in {1, 2}}
+S_Shapes(ml, mr, mc) == Shaped(S_LenRet(mr)) \cup Shaped(S_LenParam(ml)) \cup Shaped(S_Callbacks(mc))
+
 \* one canonical case per deviation class of Annotate.tla PART 3b (the reproducers of the repaired defects)
 WAnn(f, x) == [EmptyAnn EXCEPT ![f] = x]
 S_Witness(u) ==
@@ -196,6 +201,8 @@ S_Witness(u) ==
 \* "quick": the stratified single-value space, the whole on-data space, lattice samples of the grid-shaped spaces
 \* and the canonical witnesses
 CasesOf(u) == CASE Which = "quick" -> S_Strat(0) \cup S_OnData(0) \cup S_LenRet(8) \cup S_LenParam(16) \cup S_Callbacks(8) \cup S_Witness(0)
+                                     \cup S_Shapes(64, 8, 32)
+                [] Which = "shapes" -> S_Shapes(1, 1, 1)
                 [] Which = "witness" -> S_Witness(0)
                 [] Which = "single" -> S_Single(0)
                 [] Which = "strat" -> S_Strat(0)
